@@ -544,7 +544,7 @@ Fixpoint parse_shape (fuel : nat) (l : list Z) : option (shape * list Z) :=
       end
   end.
 
-Record tcase := mkCase { c_mode : Z; c_start : Z; c_end : Z; c_rstart : Z; c_rend : Z;
+Record tcase := mkCase { c_mode : Z; c_start : Z; c_end : Z; c_rstart : Z; c_rend : Z; c_split : Z;
                          c_shape : option shape; c_ops : list (Z * sop); c_bad : bool }.
 
 Definition parse_op (l : list Z) : option (Z * sop) :=
@@ -564,23 +564,24 @@ Definition parse_line (c : tcase) (l : list Z) : tcase :=
   match l with
   | 1 :: mode :: s :: e :: rest =>
       match rest with
-      | rs :: re :: _ => mkCase mode s e rs re (c_shape c) (c_ops c) (c_bad c)
-      | _ => mkCase mode s e 1 e (c_shape c) (c_ops c) (c_bad c)
+      | rs :: re :: sp :: _ => mkCase mode s e rs re sp (c_shape c) (c_ops c) (c_bad c)
+      | rs :: re :: _ => mkCase mode s e rs re 0 (c_shape c) (c_ops c) (c_bad c)
+      | _ => mkCase mode s e 1 e 0 (c_shape c) (c_ops c) (c_bad c)
       end
   | 2 :: r =>
       match parse_shape 8 r with
-      | Some (sh, []) => mkCase (c_mode c) (c_start c) (c_end c) (c_rstart c) (c_rend c) (Some sh) (c_ops c) (c_bad c)
-      | _ => mkCase (c_mode c) (c_start c) (c_end c) (c_rstart c) (c_rend c) (c_shape c) (c_ops c) true
+      | Some (sh, []) => mkCase (c_mode c) (c_start c) (c_end c) (c_rstart c) (c_rend c) (c_split c) (Some sh) (c_ops c) (c_bad c)
+      | _ => mkCase (c_mode c) (c_start c) (c_end c) (c_rstart c) (c_rend c) (c_split c) (c_shape c) (c_ops c) true
       end
   | 3 :: r =>
       match parse_op r with
-      | Some o => mkCase (c_mode c) (c_start c) (c_end c) (c_rstart c) (c_rend c) (c_shape c) (c_ops c ++ [o]) (c_bad c)
-      | None => mkCase (c_mode c) (c_start c) (c_end c) (c_rstart c) (c_rend c) (c_shape c) (c_ops c) true
+      | Some o => mkCase (c_mode c) (c_start c) (c_end c) (c_rstart c) (c_rend c) (c_split c) (c_shape c) (c_ops c ++ [o]) (c_bad c)
+      | None => mkCase (c_mode c) (c_start c) (c_end c) (c_rstart c) (c_rend c) (c_split c) (c_shape c) (c_ops c) true
       end
-  | _ => mkCase (c_mode c) (c_start c) (c_end c) (c_rstart c) (c_rend c) (c_shape c) (c_ops c) true
+  | _ => mkCase (c_mode c) (c_start c) (c_end c) (c_rstart c) (c_rend c) (c_split c) (c_shape c) (c_ops c) true
   end.
 
-Definition case0 : tcase := mkCase 0 1 10 1 10 None [] false.
+Definition case0 : tcase := mkCase 0 1 10 1 10 0 None [] false.
 
 (* two pushes into one window in one cycle are rejected by the driver (the runtime accepts
    only one tick per evaluation time) *)
@@ -596,7 +597,7 @@ Fixpoint dup_push (seen : list (Z * list Z)) (ops : list (Z * sop)) : bool :=
 
 Definition case_ok (c : tcase) (sh : shape) : bool :=
   negb (c_bad c) && (1 <=? c_start c) && (c_start c <? c_end c) && (c_end c <=? c_start c + 1000) &&
-  ((c_mode c =? 0) || (((c_mode c =? 1) || (c_mode c =? 2)) && (1 <=? c_rstart c) && (c_rstart c <? c_rend c) && (c_rend c <=? c_rstart c + 1000))) &&
+  ((c_mode c =? 0) || (((c_mode c =? 1) || (c_mode c =? 2) || ((c_mode c =? 3) && (c_start c <? c_split c) && (c_split c <? c_end c))) && (1 <=? c_rstart c) && (c_rstart c <? c_rend c) && (c_rend c <=? c_rstart c + 1000))) &&
   forallb (fun to => (c_start c <=? fst to) && (fst to <? c_end c) && op_ok (o_path (snd to)) sh (o_code (snd to))) (c_ops c) &&
   negb (dup_push [] (c_ops c)).
 
@@ -626,16 +627,16 @@ Fixpoint run_probe (sh : shape) (ts : list Z) (ops : list (Z * sop)) (src copy :
       else run_probe sh ts' ops live copy
   end.
 
-(* mode 1, first run: the source feeds a probe and the real dense record node *)
-Fixpoint run_record (sh : shape) (ts : list Z) (ops : list (Z * sop)) (src : node) (buf : buffer) : wire * buffer :=
+(* the successive post-mutation states of the scripted source, cycle by cycle *)
+Fixpoint lives (sh : shape) (ts : list Z) (ops : list (Z * sop)) (src : node) : list (Z * node) :=
   match ts with
-  | [] => ([], buf)
-  | t :: ts' =>
-      let live := run_ops sh (ops_at t ops) (commit sh src) in
-      let buf' := recorder sh t live buf in
-      let (w, b) := run_record sh ts' ops live buf' in
-      ((if nmod live then probe_lines 0 sh t live else []) ++ w, b)
+  | [] => []
+  | t :: ts' => let live := run_ops sh (ops_at t ops) (commit sh src) in (t, live) :: lives sh ts' ops live
   end.
+
+(* modes 1-3, a recording run: the source feeds the round-trip probe and a real record node *)
+Definition dense_of (sh : shape) (ls : list (Z * node)) (buf : buffer) : buffer :=
+  fold_left (fun b tl => recorder sh (fst tl) (snd tl) b) ls buf.
 
 (* mode 1, second run: the real replay node feeds a probe and a second record node *)
 Fixpoint run_replay (sh : shape) (buf : buffer) (fuel i : nat) (t tend : Z) (out : node) (buf2 : buffer) : wire * buffer :=
@@ -651,14 +652,27 @@ Fixpoint run_replay (sh : shape) (buf : buffer) (fuel i : nat) (t tend : Z) (out
   end.
 
 (* mode 2: the same two runs through the sparse recording *)
-Fixpoint run_srecord (sh : shape) (ts : list Z) (ops : list (Z * sop)) (src : node) (buf : sbuffer) : wire * sbuffer :=
-  match ts with
-  | [] => ([], buf)
-  | t :: ts' =>
-      let live := run_ops sh (ops_at t ops) (commit sh src) in
-      let buf' := srecorder sh t live buf in
-      let (w, b) := run_srecord sh ts' ops live buf' in
-      ((if nmod live then probe_lines 0 sh t live else []) ++ w, b)
+Definition sparse_of (sh : shape) (ls : list (Z * node)) (buf : sbuffer) : sbuffer :=
+  fold_left (fun b tl => srecorder sh (fst tl) (snd tl) b) ls buf.
+
+(* recorded_seed_resolver: the RECOVER seed as of [T] is the fold of the recorded deltas up to
+   [T], each applied at its own evaluation time *)
+Definition recover (sh : shape) (ents : sbuffer) (T : Z) : node :=
+  fold_left (fun out td => if fst td <=? T then apply sh (commit sh out) (snd td) else out) ents (fresh sh).
+
+(* the source's state as of [T]: its last tick at or before [T] *)
+Definition state_as_of (sh : shape) (ls : list (Z * node)) (T : Z) : node :=
+  fold_left (fun acc tl => if (fst tl <=? T) && nmod (snd tl) then snd tl else acc) ls (fresh sh).
+
+Fixpoint recover_lines (sh : shape) (ents : sbuffer) (ls : list (Z * node)) (fuel : nat) (T tend : Z) : wire :=
+  match fuel with
+  | O => []
+  | S f =>
+      if tend <? T then []
+      else
+        let r := recover sh ents T in
+        let a := state_as_of sh ls T in
+        [33; T; b2z (nvalid r); b2z (nvalid a); b2z (veq sh r a)] :: recover_lines sh ents ls f (T + 1) tend
   end.
 
 Fixpoint run_sreplay (sh : shape) (fuel : nat) (now tend : Z) (ents : sbuffer) (out : node) (buf2 : sbuffer) : wire * sbuffer :=
@@ -693,13 +707,28 @@ Definition run_delta (w : wire) : wire :=
       if case_ok c sh then
         if c_mode c =? 0 then
           run_probe sh (times (c_ops c)) (c_ops c) (fresh sh) (fresh sh) ++ [[28; 0]]
-        else if c_mode c =? 2 then
-          let (w1, buf) := run_srecord sh (times (c_ops c)) (c_ops c) (fresh sh) [] in
-          let (w2, buf2) := run_sreplay sh (S (length buf)) (c_rstart c) (c_rend c) buf (fresh sh) [] in
-          w1 ++ sbuffer_lines 31 sh buf ++ w2 ++ sbuffer_lines 131 sh buf2 ++ [[28; 0]]
-        else
-          let (w1, buf) := run_record sh (times (c_ops c)) (c_ops c) (fresh sh) [] in
+        else if c_mode c =? 1 then
+          let ts := times (c_ops c) in
+          let buf := dense_of sh (lives sh ts (c_ops c) (fresh sh)) [] in
           let (w2, buf2) := run_replay sh buf (length buf) 0 (c_rstart c) (c_rend c) (fresh sh) [] in
-          w1 ++ buffer_lines 30 sh buf ++ w2 ++ buffer_lines 130 sh buf2 ++ [[28; 0]]
+          run_probe sh ts (c_ops c) (fresh sh) (fresh sh) ++ buffer_lines 30 sh buf ++ w2 ++ buffer_lines 130 sh buf2 ++ [[28; 0]]
+        else if c_mode c =? 2 then
+          let ts := times (c_ops c) in
+          let ls := lives sh ts (c_ops c) (fresh sh) in
+          let buf := sparse_of sh ls [] in
+          let (w2, buf2) := run_sreplay sh (S (length buf)) (c_rstart c) (c_rend c) buf (fresh sh) [] in
+          run_probe sh ts (c_ops c) (fresh sh) (fresh sh) ++ sbuffer_lines 31 sh buf ++
+          recover_lines sh buf ls 25 (c_start c) (c_end c) ++
+          w2 ++ sbuffer_lines 131 sh buf2 ++ [[28; 0]]
+        else
+          (* mode 3: the sparse recording continued over two runs that share the GlobalState entry *)
+          let ops1 := filter (fun to => fst to <? c_split c) (c_ops c) in
+          let ops2 := filter (fun to => c_split c <=? fst to) (c_ops c) in
+          let buf1 := sparse_of sh (lives sh (times ops1) ops1 (fresh sh)) [] in
+          let buf := sparse_of sh (lives sh (times ops2) ops2 (fresh sh)) buf1 in
+          let (w2, buf2) := run_sreplay sh (S (length buf)) (c_rstart c) (c_rend c) buf (fresh sh) [] in
+          run_probe sh (times ops1) ops1 (fresh sh) (fresh sh) ++ sbuffer_lines 31 sh buf1 ++
+          run_probe sh (times ops2) ops2 (fresh sh) (fresh sh) ++ sbuffer_lines 35 sh buf ++
+          w2 ++ sbuffer_lines 131 sh buf2 ++ [[28; 0]]
       else [[18; 1]]
   end.
